@@ -158,9 +158,9 @@ func urlSpec(cs *Case) *spec {
 			case i+2 >= len(in):
 				v, why = true, "truncated-escape-at-end"
 			case !hexDigit(in[i+1]):
-				v, why = true, "first-digit-not-hex"
+				v, why = true, "non-hex-digit-after-percent"
 			case !hexDigit(in[i+2]):
-				v, why = true, "second-digit-not-hex"
+				v, why = true, "non-hex-digit-after-percent"
 			}
 		}
 		return &want{
